@@ -203,3 +203,40 @@ func VBare(typ int32) []byte {
 	}
 	return b
 }
+
+func VCreateNode(host string, rand uint64) []byte {
+	return vcmd(internal.Command_CreateNodeCommand, internal.E_CreateNodeCommand_Command, &internal.CreateNodeCommand{Host: proto.String(host), Rand: proto.Uint64(rand)})
+}
+func VDeleteNode(id uint64, force bool) []byte {
+	return vcmd(internal.Command_DeleteNodeCommand, internal.E_DeleteNodeCommand_Command, &internal.DeleteNodeCommand{ID: proto.Uint64(id), Force: proto.Bool(force)})
+}
+func VSetDefaultRetentionPolicy(db, rp string) []byte {
+	return vcmd(internal.Command_SetDefaultRetentionPolicyCommand, internal.E_SetDefaultRetentionPolicyCommand_Command, &internal.SetDefaultRetentionPolicyCommand{Database: proto.String(db), Name: proto.String(rp)})
+}
+func VUpdateNode(id uint64, host string) []byte {
+	return vcmd(internal.Command_UpdateNodeCommand, internal.E_UpdateNodeCommand_Command, &internal.UpdateNodeCommand{ID: proto.Uint64(id), Host: proto.String(host)})
+}
+func VRemovePeer(id uint64, addr string) []byte {
+	return vcmd(internal.Command_RemovePeerCommand, internal.E_RemovePeerCommand_Command, &internal.RemovePeerCommand{ID: proto.Uint64(id), Addr: proto.String(addr)})
+}
+
+// VRaw builds a command with the given type value and, if extField > 0, one
+// raw length-delimited field extField carrying payload.
+func VRaw(typ int32, extField int32, payload []byte) []byte {
+	b := VBare(typ)
+	if extField > 0 {
+		b = append(b, proto.EncodeVarint(uint64(extField)<<3|2)...)
+		b = append(b, proto.EncodeVarint(uint64(len(payload)))...)
+		b = append(b, payload...)
+	}
+	return b
+}
+
+// VCommandType returns the type value of a marshalled command (-1 if undecodable).
+func VCommandType(cmd []byte) int32 {
+	var c internal.Command
+	if err := proto.Unmarshal(cmd, &c); err != nil {
+		return -1
+	}
+	return int32(c.GetType())
+}
